@@ -209,6 +209,11 @@ func C06(p *Prog, r *Run) {
 
 	r.Rule("C06.2", "element-wise duplication: duplicate builds traits, nodes, genes and modules with the copy constructors over the elements of the source lists, same length and index, and assembles the new genome from exactly those lists", func() {
 		dup := p.Func(PkgG, "Genome.duplicate")
+		if flat := p.FuncOpt(PkgG, "Genome.duplicate__flat"); flat != nil {
+			r.Fn(FuncName(dup))
+			r.c06Elementwise(sums, dup, flat)
+			return
+		}
 		dupNodes := p.Func(PkgG, "Genome.duplicateNodes")
 		dupGenes := p.Func(PkgG, "Genome.duplicateGenes")
 		dupCG := p.Func(PkgG, "Genome.duplicateControlGenes")
@@ -348,6 +353,9 @@ func C06(p *Prog, r *Run) {
 func (r *Run) elementwise(sums *Summaries, fn *ssa.Function, sliceT *Term, srcField *types.Var, ctor *ssa.Function, label string) {
 	p := r.P
 	pos := p.Pos(fn.Pos())
+	if sliceT != nil && sliceT.Op != "make" && r.elementwiseAppend(fn, sliceT, srcField, ctor, label) {
+		return
+	}
 	if sliceT == nil || sliceT.Op != "make" {
 		r.Bad(label, pos, fmt.Sprintf("%s of the result is %v, expected a fresh slice", srcField.Name(), sliceT))
 		return
@@ -432,9 +440,35 @@ func (r *Run) nilModulesGuard(dup *ssa.Function, cgField *types.Var) {
 // c06Remap implements C06.3.
 func (r *Run) c06Remap(sums *Summaries) {
 	p := r.P
-	dupNodes := p.Func(PkgG, "Genome.duplicateNodes")
-	dupGenes := p.Func(PkgG, "Genome.duplicateGenes")
-	dupCG := p.Func(PkgG, "Genome.duplicateControlGenes")
+	var dupNodes, dupGenes, dupCG *ssa.Function
+	// which value is "the duplicate's trait list" / "the duplicate's node map" where the copies are made
+	isTraits := func(t *Term, idx int) bool { return isParamIdx(t, idx) }
+	isMap := func(t *Term, idx int) bool { return isParamIdx(t, idx) }
+	if flat := p.FuncOpt(PkgG, "Genome.duplicate__flat"); flat != nil {
+		// flat view: the three list helpers are inlined into duplicate (whether the tree has them or not)
+		dupNodes, dupGenes, dupCG = flat, flat, flat
+		res := c06ResultSites(p, flat)
+		isTraits = func(t *Term, _ int) bool {
+			for _, rs := range res {
+				if rs.traits != nil && stripPtr(t.V) == rs.traits {
+					return true
+				}
+			}
+			return false
+		}
+		isMap = func(t *Term, _ int) bool {
+			for _, rs := range res {
+				if rs.nodeMap != nil && stripPtr(t.V) == rs.nodeMap {
+					return true
+				}
+			}
+			return false
+		}
+	} else {
+		dupNodes = p.Func(PkgG, "Genome.duplicateNodes")
+		dupGenes = p.Func(PkgG, "Genome.duplicateGenes")
+		dupCG = p.Func(PkgG, "Genome.duplicateControlGenes")
+	}
 	traitWithId := p.Func(PkgG, "TraitWithId")
 	newNNodeCopy := p.Func(PkgN, "NewNNodeCopy")
 	newGeneCopy := p.Func(PkgG, "NewGeneCopy")
@@ -476,7 +510,7 @@ func (r *Run) c06Remap(sums *Summaries) {
 			if r.Mode != "own-lists" && a.Args[0].String() != srcTraitPath+".Id" {
 				return false, fmt.Sprintf("trait is looked up by %s, expected the id of the corresponding source trait %s.Id", a.Args[0], srcTraitPath)
 			}
-			if !isParamIdx(a.Args[1], traitsIdx) {
+			if !isTraits(a.Args[1], traitsIdx) {
 				return false, fmt.Sprintf("trait is looked up in %s, expected the duplicate's trait list", a.Args[1])
 			}
 		}
@@ -487,7 +521,7 @@ func (r *Run) c06Remap(sums *Summaries) {
 			if a.Op != "lookup" {
 				return false, fmt.Sprintf("node of the copy is %s, not a lookup in the duplicate's node map", a)
 			}
-			if !isParamIdx(a.Args[0], mapIdx) {
+			if !isMap(a.Args[0], mapIdx) {
 				return false, fmt.Sprintf("node is looked up in %s, expected the duplicate's node map", a.Args[0])
 			}
 			if r.Mode != "own-lists" && a.Args[1].String() != srcNodePath+".Id" {
@@ -500,7 +534,13 @@ func (r *Run) c06Remap(sums *Summaries) {
 	// --- nodes
 	{
 		tm := NewTermer(dupNodes)
-		calls := CallsTo(dupNodes, newNNodeCopy)
+		var calls []ssa.CallInstruction
+		for _, c := range CallsTo(dupNodes, newNNodeCopy) {
+			// the copies of the genome's own nodes (the flat view also contains the copies of the modules' control nodes)
+			if a0 := tm.Of(c.Common().Args[0]); a0.Op == "elem" && a0.Args[0].Op == "field" && a0.Args[0].Name == "Nodes" {
+				calls = append(calls, c)
+			}
+		}
 		for _, c := range calls {
 			r.CallSites++
 			args := callArgTerms(tm, c.Common())
@@ -672,6 +712,254 @@ func (r *Run) c06Remap(sums *Summaries) {
 			} else {
 				r.Note("positive fixture aliascopy.NewThingCopy reported by the alias rule")
 			}
+		}
+	}
+}
+
+// elementwiseAppend recognises the other way of building the duplicated list:
+//
+//	dup := make([]T, 0, n); for i/range over source.F { dup = append(dup, ctor(source.F[i], …)) }
+//
+// i.e. a loop-carried list that starts empty, grows by exactly one ctor(source.F[i]) on every iteration of a loop
+// that ranges over the whole source list (the append dominates every back edge). Same elements, same order.
+func (r *Run) elementwiseAppend(fn *ssa.Function, sliceT *Term, srcField *types.Var, ctor *ssa.Function, label string) bool {
+	p := r.P
+	ph, ok := sliceT.V.(*ssa.Phi)
+	if !ok {
+		return false
+	}
+	tm := NewTermer(fn)
+	var loop *Loop
+	for _, l := range Loops(fn) {
+		if l.Header == ph.Block() {
+			loop = l
+		}
+	}
+	if loop == nil {
+		return false
+	}
+	src := ""
+	if iff, okI := loop.Header.Instrs[len(loop.Header.Instrs)-1].(*ssa.If); okI {
+		ct := tm.Of(iff.Cond)
+		if ct.Op == "bin" && ct.Name == "<" && ct.Args[1].Op == "len" && ct.Args[1].Args[0].Op == "field" && ct.Args[1].Args[0].Obj == srcField && isParamIdx(ct.Args[1].Args[0].Args[0], 0) {
+			src = ct.Args[1].Args[0].String()
+		}
+	}
+	if src == "" {
+		return false
+	}
+	pos := p.Pos(ph.Pos())
+	okAll := true
+	n := 0
+	for i, e := range ph.Edges {
+		pred := ph.Block().Preds[i]
+		if !loop.Blocks[pred] {
+			ms, isMS := e.(*ssa.MakeSlice)
+			if !isMS {
+				if c, isC := e.(*ssa.Const); !(isC && c.Value == nil) {
+					okAll = false
+				}
+				continue
+			}
+			if k, isK := ms.Len.(*ssa.Const); !isK || k.Int64() != 0 {
+				okAll = false
+			}
+			continue
+		}
+		base, elems, isApp := appendCall(e)
+		if !isApp || base != ssa.Value(ph) || len(elems) != 1 {
+			okAll = false
+			continue
+		}
+		n++
+		v := tm.Of(elems[0])
+		okE := isCallTo(v, ctor) && len(v.Args) >= 1 && v.Args[0].Op == "elem" && v.Args[0].Args[0].String() == src
+		// the element index is the loop's own counter
+		if okE {
+			if iff, okI := loop.Header.Instrs[len(loop.Header.Instrs)-1].(*ssa.If); okI {
+				if b, okB := iff.Cond.(*ssa.BinOp); okB && len(v.Args[0].Args) > 1 && v.Args[0].Args[1].V != b.X {
+					// range loops index with the incremented counter of the header
+					if inc, okInc := b.X.(*ssa.BinOp); !(okInc && v.Args[0].Args[1].V == ssa.Value(inc)) {
+						if u, okU := v.Args[0].Args[1].V.(*ssa.Phi); !(okU && u.Block() == loop.Header) {
+							okE = false
+						}
+					}
+				}
+			}
+		}
+		// executed on every iteration
+		def := definingInstr(e)
+		for _, lb := range loop.Latch {
+			if def == nil || !(def.Block() == lb || def.Block().Dominates(lb)) {
+				okE = false
+			}
+		}
+		r.Check(okE, label+".elem", pos, fmt.Sprintf("dup = append(dup, %s(source.%s[i], …)) once per element of the source list", ctor.Name(), srcField.Name()),
+			fmt.Sprintf("the duplicated list grows by %s, which is not one %s(source.%s[i], …) per iteration", v, ctor.Name(), srcField.Name()))
+	}
+	if !okAll || n == 0 {
+		return false
+	}
+	return true
+}
+
+// c06ResultSite: one place where the flat view of duplicate assembles the new genome.
+type c06ResultSite struct {
+	call                                   ssa.CallInstruction
+	id, traits, nodes, genes, cgs, nodeMap ssa.Value // feasible values at the call (nil when not unique)
+	cgsNil                                 bool
+}
+
+// c06ResultSites finds the genome constructor calls of the flat view and resolves, with correlated-phi
+// narrowing at the call, which list values are handed over.
+func c06ResultSites(p *Prog, flat *ssa.Function) []c06ResultSite {
+	var out []c06ResultSite
+	for _, name := range []string{"newGenomeWithNodeIdMap", "newGenome", "NewGenome"} {
+		ctor := p.FuncOpt(PkgG, name)
+		if ctor == nil {
+			continue
+		}
+		for _, c := range CallsTo(flat, ctor) {
+			a := c.Common().Args
+			if len(a) < 5 {
+				continue
+			}
+			rs := c06ResultSite{call: c}
+			at := c.Block()
+			one := func(v ssa.Value) ssa.Value {
+				if x := OnlyAt(v, at); x != nil {
+					return stripPtr(x)
+				}
+				return nil
+			}
+			rs.id, rs.traits, rs.nodes, rs.genes = a[0], one(a[1]), one(a[2]), one(a[3])
+			alts := NarrowAt(a[4], at)
+			if len(alts) == 1 {
+				if k, ok := alts[0].(*ssa.Const); ok && k.Value == nil {
+					rs.cgsNil = true
+				} else {
+					rs.cgs = stripPtr(alts[0])
+				}
+			}
+			if len(a) > 5 {
+				rs.nodeMap = one(a[5])
+			}
+			out = append(out, rs)
+		}
+	}
+	return out
+}
+
+// c06Elementwise is C06.2 on the flat view: whatever helpers the tree uses, the new genome is assembled from a
+// trait list, node list, gene list and module list that are built element-wise from the source's lists.
+func (r *Run) c06Elementwise(sums *Summaries, dup, flat *ssa.Function) {
+	p := r.P
+	pos := p.Pos(dup.Pos())
+	tm := NewTermer(flat)
+	gf := func(n string) *types.Var { return p.Field(PkgG, "Genome", n) }
+	sites := c06ResultSites(p, flat)
+	if len(sites) == 0 {
+		r.Bad("duplicate", pos, "duplicate does not assemble its result with the genome constructors (newGenomeWithNodeIdMap / newGenome); the element-wise rule cannot be applied")
+		return
+	}
+	sawModules := false
+	for _, rs := range sites {
+		idT := tm.Of(rs.id)
+		r.Check(idT.Op == "param" && idT.Idx == 1, "duplicate.Id", pos, "Id <- the newId parameter", fmt.Sprintf("Id of the duplicate is %v, expected the newId parameter", idT))
+		if rs.traits == nil || rs.nodes == nil || rs.genes == nil {
+			r.Bad("duplicate.lists", p.Pos(rs.call.Pos()), "the trait, node or gene list handed to the genome constructor is not a single list value on this path")
+			continue
+		}
+		r.elementwise(sums, flat, tm.Of(rs.traits), gf("Traits"), p.Func(PkgT, "NewTraitCopy"), "duplicate.Traits")
+		r.elementwise(sums, flat, tm.Of(rs.nodes), gf("Nodes"), p.Func(PkgN, "NewNNodeCopy"), "duplicateNodes")
+		r.elementwise(sums, flat, tm.Of(rs.genes), gf("Genes"), p.Func(PkgG, "NewGeneCopy"), "duplicateGenes")
+		// the node map registers exactly the copied nodes (C06.3 checks the key); it must be a map made here
+		okMap := false
+		if rs.nodeMap != nil {
+			_, okMap = rs.nodeMap.(*ssa.MakeMap)
+		}
+		r.Check(okMap, "duplicate.Nodes+nodeByIdMap", pos, "the node index handed over is the map filled while the nodes are copied", "the node index of the duplicate is not a map built while copying the nodes")
+		r.OK("duplicate.Genes", pos, "Genes <- element-wise copies built over the duplicated traits and node map (remapping: C06.3)")
+		switch {
+		case rs.cgsNil:
+		case rs.cgs != nil:
+			sawModules = true
+			r.elementwise(sums, flat, tm.Of(rs.cgs), gf("ControlGenes"), p.Func(PkgG, "NewMIMOGeneCopy"), "duplicateControlGenes")
+		default:
+			// one constructor call for both cases: every alternative is nil or an element-wise list
+			for _, alt := range NarrowAt(rs.call.Common().Args[4], rs.call.Block()) {
+				if k, ok := alt.(*ssa.Const); ok && k.Value == nil {
+					continue
+				}
+				sawModules = true
+				r.elementwise(sums, flat, tm.Of(stripPtr(alt)), gf("ControlGenes"), p.Func(PkgG, "NewMIMOGeneCopy"), "duplicateControlGenes")
+			}
+		}
+	}
+	r.Check(sawModules, "duplicate.ControlGenes", pos, "ControlGenes <- nil | element-wise copies of the source's modules", "no path of duplicate hands the copied modules to the new genome")
+	r.c06NilModulesGuard(flat, sites)
+	// Phenotype must not be shared: the constructors do not take one, and nothing stores it afterwards
+	okPh := true
+	for _, st := range FieldStores(flat, gf("Phenotype")) {
+		if c, ok := st.Val.(*ssa.Const); !ok || c.Value != nil {
+			okPh = false
+		}
+	}
+	r.Check(okPh, "duplicate.Phenotype", pos, "Phenotype is not carried over (rebuilt on demand)", "duplicate stores a phenotype into the copy: the network would be shared with the source")
+}
+
+// c06NilModulesGuard: a nil module list reaches the constructor only when the source has no modules.
+func (r *Run) c06NilModulesGuard(flat *ssa.Function, sites []c06ResultSite) {
+	p := r.P
+	tm := NewTermer(flat)
+	cgField := p.Field(PkgG, "Genome", "ControlGenes")
+	for _, rs := range sites {
+		arg := rs.call.Common().Args[4]
+		// edges / blocks on which the argument is nil
+		type where struct{ b *ssa.BasicBlock }
+		var nilAt []*ssa.BasicBlock
+		if k, ok := arg.(*ssa.Const); ok && k.Value == nil {
+			nilAt = append(nilAt, rs.call.Block())
+		} else if ph, ok := arg.(*ssa.Phi); ok {
+			feas := FeasibleEdges(ph, Guards(rs.call.Block()))
+			for i, e := range ph.Edges {
+				if k, ok := e.(*ssa.Const); ok && k.Value == nil && feas[i] {
+					nilAt = append(nilAt, ph.Block().Preds[i])
+				}
+			}
+		}
+		for _, b := range nilAt {
+			ok := false
+			gs := Guards(b)
+			// the edge out of b into the phi block may itself be the deciding branch
+			if iff, isIf := b.Instrs[len(b.Instrs)-1].(*ssa.If); isIf && len(b.Succs) == 2 {
+				if ph, isPhi := arg.(*ssa.Phi); isPhi {
+					gs = append(gs, Guard{iff.Cond, b.Succs[0] == ph.Block(), b})
+				}
+			}
+			for _, g := range gs {
+				gt := tm.Of(g.Cond)
+				if gt.Op != "bin" {
+					continue
+				}
+				l, k := gt.Args[0], gt.Args[1]
+				if l.Op != "len" {
+					l, k = k, l
+				}
+				if !(l.Op == "len" && l.Args[0].Op == "field" && l.Args[0].Obj == cgField && isParamIdx(l.Args[0].Args[0], 0) && k.Op == "const" && k.Name == "0") {
+					continue
+				}
+				switch gt.Name {
+				case "==":
+					ok = ok || g.True
+				case "!=", ">":
+					ok = ok || !g.True
+				case "<=":
+					ok = ok || g.True
+				}
+			}
+			r.Check(ok, "duplicate.no-modules-branch", p.Pos(rs.call.Pos()), "the module-free duplicate is returned only under len(source.ControlGenes) == 0",
+				"a duplicate without modules is built on a path that is not guarded by len(source.ControlGenes) == 0: modules would be dropped")
 		}
 	}
 }
